@@ -128,7 +128,7 @@ pub struct Violation {
     pub actual: String,
 }
 
-const SAMPLE_CAP: usize = 12;
+const SAMPLE_CAP: usize = 24;
 
 #[derive(Default, Clone, Debug)]
 pub struct Stats {
@@ -302,6 +302,14 @@ where
         .collect();
     for s in shards {
         total.merge(s);
+    }
+    // actual members of the explored space, written out: the first and the last leaf of the tree
+    let show = |v: Vec<char>| v.iter().map(|c| format!("U+{:04X}", *c as u32)).collect::<Vec<_>>();
+    if let (Some(a), Some(z)) = (alpha.first(), alpha.last()) {
+        total.sample(json!({"explored_string": show(vec![*a; max_len]), "position_in_tree": "first leaf"}));
+        total.sample(json!({"explored_string": show(vec![*z; max_len]), "position_in_tree": "last leaf"}));
+        let mid: Vec<char> = (0..max_len).map(|i| alpha[(i * 7 + 3) % alpha.len()]).collect();
+        total.sample(json!({"explored_string": show(mid), "position_in_tree": "interior leaf"}));
     }
     total
 }
